@@ -999,10 +999,20 @@ func (il *inliner) collectStmt(f *ilFile, s ast.Stmt, ret *retCtx, tail bool) []
 
 // buildOverlay returns file contents in which every call statement of a new helper (see the file
 // comment) is expanded. dir is the module directory to load, root the directory keys are relative to.
-func buildOverlay(dir, root string, newKeys map[string]bool, patterns ...string) (map[string][]byte, []string) {
+func buildOverlay(dir, root string, newKeys map[string]bool, patterns ...string) (ov map[string][]byte, notes []string) {
 	if len(newKeys) == 0 {
 		return nil, nil
 	}
+	// the normalisation is a convenience: whatever goes wrong in it, the source as written is analysed
+	defer func() {
+		if p := recover(); p != nil {
+			ov, notes = nil, []string{fmt.Sprintf("helper normalisation abandoned (internal error: %v); analysing the source as written", p)}
+		}
+	}()
+	return buildOverlay0(dir, root, newKeys, patterns...)
+}
+
+func buildOverlay0(dir, root string, newKeys map[string]bool, patterns ...string) (map[string][]byte, []string) {
 	fset := token.NewFileSet()
 	cfg := &packages.Config{
 		Mode: packages.NeedName | packages.NeedFiles | packages.NeedCompiledGoFiles | packages.NeedSyntax | packages.NeedTypes | packages.NeedTypesInfo | packages.NeedImports | packages.NeedDeps,
